@@ -1,1 +1,10 @@
-/-! # C16 — property theorems (not built yet) -/
+import RsMatterVerif.Model.Tlv
+/-! # C16 — property theorems (first group: the failing witnesses of the old arithmetic) -/
+namespace C16
+open Tlv
+
+/-- the arithmetic of `TLVSequence::len` before the fix overflows on a 9-byte input -/
+theorem old_len_overflows :
+    Old.elemLen [0x13, 0xff, 0xff, 0xff, 0xff, 0xff, 0xff, 0xff, 0xff] = .panic .overflow := by decide
+
+end C16
